@@ -4,6 +4,9 @@
 pub(crate) mod spec {
 	include!(concat!(env!("SAF_VERIF"), "/spec.rs"));
 }
+pub(crate) mod targets {
+	include!(concat!(env!("SAF_VERIF"), "/targets.rs"));
+}
 pub(crate) mod io {
 	include!(concat!(env!("SAF_VERIF"), "/io.rs"));
 }
@@ -75,3 +78,79 @@ impl<K: Eq, V> FromIterator<(K, V)> for LinearMap<K, V> {
 pub(crate) fn stub_format(_args: std::fmt::Arguments<'_>) -> String {
 	String::new()
 }
+
+/// `enum_node!(e = "ns.e", Some(2); ["a", "b"])` declares `e: &'static SchemaNode<'static>` backed by
+/// locals of the calling harness (never dropped).
+macro_rules! enum_node {
+	($id:ident = $fq:expr, $delim:expr; [$($sym:expr),+]) => {
+		let mut __syms = std::mem::ManuallyDrop::new([$(crate::schema::verif::sstring($sym)),+]);
+		let mut __i = 0usize;
+		let mut __lk = std::mem::ManuallyDrop::new([$((crate::schema::verif::sstring($sym), {
+			let k = __i;
+			__i += 1;
+			k
+		})),+]);
+		let __n = __syms.len();
+		let __node = std::mem::ManuallyDrop::new(crate::schema::self_referential::SchemaNode::Enum(
+			crate::schema::self_referential::Enum {
+				// SAFETY (verification only): backing arrays outlive every use and nothing is dropped or grown
+				symbols: unsafe { Vec::from_raw_parts(__syms.as_mut_ptr(), __n, __n) },
+				name: crate::schema::verif::name($fq, $delim),
+				per_name_lookup: crate::verif::LinearMap::from_vec(unsafe {
+					Vec::from_raw_parts(__lk.as_mut_ptr(), __n, __n)
+				}),
+			},
+		));
+		let $id: &'static crate::schema::self_referential::SchemaNode<'static> =
+			unsafe { std::mem::transmute(&*__node) };
+	};
+}
+pub(crate) use enum_node;
+
+/// `record_node!(r = "r", None; [("a", node_a), ("b", node_b)])`
+macro_rules! record_node {
+	($id:ident = $fq:expr, $delim:expr; [$(($fname:expr, $fnode:expr)),+]) => {
+		let mut __fields = std::mem::ManuallyDrop::new([$(crate::schema::self_referential::RecordField {
+			name: crate::schema::verif::sstring($fname),
+			schema: crate::schema::verif::nref($fnode),
+		}),+]);
+		let mut __i = 0usize;
+		let mut __lk = std::mem::ManuallyDrop::new([$((crate::schema::verif::sstring($fname), {
+			let k = __i;
+			__i += 1;
+			k
+		})),+]);
+		let __n = __fields.len();
+		let __node = std::mem::ManuallyDrop::new(crate::schema::self_referential::SchemaNode::Record(
+			crate::schema::self_referential::Record {
+				fields: unsafe { Vec::from_raw_parts(__fields.as_mut_ptr(), __n, __n) },
+				name: crate::schema::verif::name($fq, $delim),
+				per_name_lookup: crate::verif::LinearMap::from_vec(unsafe {
+					Vec::from_raw_parts(__lk.as_mut_ptr(), __n, __n)
+				}),
+			},
+		));
+		let $id: &'static crate::schema::self_referential::SchemaNode<'static> =
+			unsafe { std::mem::transmute(&*__node) };
+	};
+}
+pub(crate) use record_node;
+
+/// `union_node!(u = [node0, node1])`: the lookup table is computed by the REAL
+/// `PerTypeLookup::new` (exactly what freezing a schema does).
+macro_rules! union_node {
+	($id:ident = [$($v:expr),+]) => {
+		let mut __vars = std::mem::ManuallyDrop::new([$(crate::schema::verif::nref($v)),+]);
+		let __n = __vars.len();
+		let __lookup = crate::schema::verif::per_type_lookup_new(&__vars[..]);
+		let __node = std::mem::ManuallyDrop::new(crate::schema::self_referential::SchemaNode::Union(
+			crate::schema::self_referential::Union {
+				variants: unsafe { Vec::from_raw_parts(__vars.as_mut_ptr(), __n, __n) },
+				per_type_lookup: __lookup,
+			},
+		));
+		let $id: &'static crate::schema::self_referential::SchemaNode<'static> =
+			unsafe { std::mem::transmute(&*__node) };
+	};
+}
+pub(crate) use union_node;
